@@ -78,6 +78,53 @@ class Restricted:
     def hess(self, x): return self.fn.hess(x)
 
 
+class Shifted:
+    """fn - const (same domain and derivatives): moves the optimal value of a cp problem"""
+    def __init__(self, fn, const):
+        self.fn, self.const = fn, float(const)
+        self.name = fn.name
+    def indom(self, x): return self.fn.indom(x)
+    def val(self, x): return self.fn.val(x) - self.const
+    def grad(self, x): return self.fn.grad(x)
+    def hess(self, x): return self.fn.hess(x)
+
+
+class Translated:
+    """u -> fn(t + u)"""
+    def __init__(self, fn, t):
+        self.fn, self.t = fn, np.array(t, dtype=float)
+        self.name = fn.name
+    def indom(self, u): return self.fn.indom(self.t + u)
+    def val(self, u): return self.fn.val(self.t + u)
+    def grad(self, u): return self.fn.grad(self.t + u)
+    def hess(self, u): return self.fn.hess(self.t + u)
+
+
+def zero_optimum(pr, entry, xsol, pstar):
+    """Rewrite pr in place so that its optimal value is (approximately) zero: cp/gp objectives are shifted by the
+    optimal value, a cpl problem (linear objective) is translated to u = x - xsol.  xsol/pstar come from a preliminary
+    solve and only shape the instance; every verdict on the new instance is recomputed from its own data."""
+    if entry == "cpl":
+        t = np.array(xsol, dtype=float)
+        pr.funcs = [Translated(f, t) for f in pr.funcs]
+        pr.h = pr.h - pr.G @ t
+        pr.b = pr.b - pr.A @ t
+        pr.xs = pr.xs - t
+        pr.x0 = pr.x0 - t
+    elif entry == "gp":
+        K0 = pr.K[0]
+        pr.ggp = pr.ggp.copy(); pr.ggp[:K0] -= pstar
+        f0 = pr.funcs[0]
+        pr.funcs[0] = LSE(f0.F, f0.g - pstar)
+    else:
+        f0 = pr.funcs[0]
+        if isinstance(f0, Quad):
+            pr.funcs[0] = Quad(f0.Q, f0.r, f0.t + pstar)
+        else:
+            pr.funcs[0] = Shifted(f0, pstar)
+    return pr
+
+
 class NLProb:
     """minimize f0(x) (cp/gp) or c'x (cpl) s.t. f_k(x) <= 0, G x <=_K h, A x = b"""
     def __init__(self, **kw):
